@@ -15,7 +15,7 @@ RULE = ('BFS over pre-reset update() histories of the real online monitor (discr
         'in EVERY reached state reset() is applied to the real object and a family of post-reset input sequences (all sequences of length <= 2 '
         'over the event alphabet plus constant probes longer than the largest bound, plus - for two variables - update() calls that leave one variable out; dense: fixed probe signals in two chunkings) is fed; every '
         'post-reset output and sampling_violation_counter value must equal what a freshly parsed (and pastified) monitor returns for the same inputs; '
-        'the initial state is included (reset() before the first update); a (state, probe) pair is one checked obligation; '
+        'the initial state is included (reset() before the first update); after every probe a second reset() and the probe once more, replayed from time-stamp 0; a (state, probe) pair is one checked obligation; '
         'interface-aware layer: the same for monitors under the non-standard semantics with input/output declarations (predicates that contribute +-inf or 0 drive unbounded operators to their absorbing values); '
         'faulty layer: pre-reset histories over an alphabet that contains samples outside the domain of sqrt/ln/log/division, so that they contain update() calls '
         'the monitor rejects half-way through its walk - reset() after such a history must still give the behaviour of a fresh monitor')
@@ -46,11 +46,11 @@ class ResetModel(c02.DtOnlineModel):
             ps += [((x, None),) for x in xs] + [((None, y), (x, None)) for x in xs[:2] for y in ys[:2]]
         return ps
 
-    def run_probe(self, obj, q):
+    def run_probe(self, obj, q, t0=100):
         """feed q to obj; returns list of (outcome, counter)"""
         outs = []
         for i, e in enumerate(q):
-            o = impl.outcome(impl.dt_update, obj, 100 + i, {v: x for v, x in zip(self.vs, e) if x is not None})
+            o = impl.outcome(impl.dt_update, obj, t0 + i, {v: x for v, x in zip(self.vs, e) if x is not None})
             outs.append((explore.snapshot(o), obj.sampling_violation_counter))
         return outs
 
@@ -208,8 +208,10 @@ def dt_explore(res, mod, f, pastify, subs, top, tier, faulty=False, ia=None):
                 res.outcomes['differs from fresh'] += 1
                 return
             # a second reset() on the same object (the probe just fed is its pre-reset history)
+            # (the replay after the second reset() starts at time-stamp 0 again, as a caller that re-runs a recorded log would: for the constant
+            # probes its first call then repeats the sample of the last call before the reset)
             r = impl.outcome(obj.reset)
-            got2 = m.run_probe(obj, q) if r[0] == 'ok' else None
+            got2 = m.run_probe(obj, q, t0=0) if r[0] == 'ok' else None
             if got2 != fresh_out[q]:
                 res.violation(mod, dict(case, second_reset=True), 'after a SECOND reset() on the same object the probe returns %r; a fresh monitor returns %r'
                               % (got2 if got2 is None else [g[0] for g in got2], [g[0] for g in fresh_out[q]]))
@@ -468,7 +470,7 @@ def replay(case):
             return ['post-reset outputs %r differ from a fresh monitor %r' % (got, want)]
         if case.get('second_reset'):
             obj.reset()
-            got2 = m.run_probe(obj, q)
+            got2 = m.run_probe(obj, q, t0=0)
             return [] if got2 == want else ['after a second reset() the outputs %r differ from a fresh monitor %r' % (got2, want)]
         return []
     vs = case['vars']
